@@ -1,10 +1,12 @@
-"""E3 numeric (bounded, never counted as proved): the kernel-level contract 'the tabulated tensor IS the integral'.
+"""E3 numeric (bounded, never counted as proved): the kernel-level contract 'the tabulated tensor IS the integral'
+(C01, C02, C05, C09, C11) and 'the expression kernel IS the expression at the points' (C04).
 
-For each corpus/demo kernel on an affine simplex cell, the LNodes program produced by the real generators is executed
-(runtime/lnodes_float.py) on pseudo-random cell geometry, coefficient dofs and constants, and contracted with random
-argument dof vectors; the result must equal the same quantity computed by runtime/reference.py from the ORIGINAL UFL
-integrands (UFL preprocessing without pull-backs, scaling or geometry lowering; basix tabulation; explicit affine
-geometry; the same quadrature rule and degree).  Forms outside the reference's fragment are skipped and listed."""
+For each corpus/demo kernel the LNodes program produced by the real generators is executed (runtime/lnodes_float.py) on
+pseudo-random cell geometry (affine simplices of both orientations; perturbed, non-affine quadrilaterals/hexahedra and
+higher-order simplices), coefficient dofs and constants, and contracted with random argument dof vectors; the result must
+equal the same quantity computed by runtime/reference.py from the ORIGINAL UFL integrands/expressions (UFL preprocessing
+without pull-backs, scaling or geometry lowering; basix tabulation; explicit geometry; the integral's own quadrature rule).
+Kernels outside the reference's fragment are skipped and listed in the evidence."""
 from __future__ import annotations
 
 import multiprocessing as mp
@@ -16,85 +18,95 @@ from kernelvc import corpus as C
 
 RTOL = 1e-9
 MAX_COST = 3_000_000  # scalar sub-expression evaluations per kernel (about 30 s)
+CELLS = ("interval", "triangle", "tetrahedron", "quadrilateral", "hexahedron", "prism")
+R = None
 
 
-def _ref_cell(cellname, rng, flip):
-    import basix
-
-    ct = getattr(basix.CellType, cellname)
-    g = np.array(basix.geometry(ct), dtype=float)
-    tdim = g.shape[1]
-    M = np.eye(tdim) + 0.35 * rng.uniform(-1, 1, (tdim, tdim))
+# ------------------------------------------------------------------------------------------------ geometry draws
+def _nodes(cel, rng, flip):
+    """Physical positions of the coordinate nodes: an affine image of the reference nodes, plus a node-wise
+    perturbation unless the cell is an affine simplex (so quadrilaterals etc. are genuinely non-affine)."""
+    sub = cel._sub_element if hasattr(cel, "_sub_element") else cel
+    ref = np.asarray(sub._element.points, dtype=float)
+    tdim = ref.shape[1]
+    M = np.eye(tdim) + 0.3 * rng.uniform(-1, 1, (tdim, tdim))
     if flip:
         M[:, 0] = -M[:, 0]
-    v = g @ M.T + rng.uniform(-1, 1, tdim)
+    v = ref @ M.T + rng.uniform(-1, 1, tdim)
+    simplex_affine = cel.cell_type.name in ("interval", "triangle", "tetrahedron") and sub.embedded_superdegree == 1
+    if not simplex_affine:
+        v = v + 0.06 * rng.uniform(-1, 1, v.shape)
     return v
 
 
 def _neighbour(cell0, f0, f1, rng):
-    """Vertices of a second cell whose local facet f1 coincides (vertex by vertex, in order) with facet f0 of cell0."""
-    import basix
-
-    topo = basix.topology(cell0.ct)[cell0.tdim - 1]
-    nv = cell0.v.shape[0]
-    v1 = np.zeros_like(cell0.v)
-    fv0, fv1 = list(topo[f0]), list(topo[f1])
+    """Nodes of a second (degree-1) cell whose local facet f1 coincides, vertex by vertex and in order, with facet f0
+    of cell0; the remaining vertices are cell0's mirrored through the facet."""
+    topo = cell0.topo
+    tdim = cell0.tdim
+    fv0, fv1 = list(topo[tdim - 1][f0]), list(topo[tdim - 1][f1])
+    nv = len(topo[0])
+    v1 = np.full((nv, cell0.gdim), np.nan)
     for a, b in zip(fv0, fv1):
         v1[b] = cell0.v[a]
-    opp0 = next(i for i in range(nv) if i not in fv0)
-    opp1 = next(i for i in range(nv) if i not in fv1)
-    c = cell0.v[fv0].mean(axis=0)
-    v1[opp1] = c - (cell0.v[opp0] - c) * 0.8 + 0.05 * rng.uniform(-1, 1, cell0.tdim)
+    edges = [tuple(e) for e in topo[1]]
+    if cell0.simplex:
+        opp0 = next(i for i in range(nv) if i not in fv0)
+        opp1 = next(i for i in range(nv) if i not in fv1)
+        c = cell0.v[fv0].mean(axis=0)
+        v1[opp1] = c - (cell0.v[opp0] - c) * 0.8 + 0.05 * rng.uniform(-1, 1, cell0.gdim)
+    else:
+        def off_facet_neighbour(v, fv):
+            return next(w for e in edges if v in e for w in e if w != v and w not in fv)
+
+        for a, b in zip(fv0, fv1):
+            a2, b2 = off_facet_neighbour(a, fv0), off_facet_neighbour(b, fv1)
+            v1[b2] = cell0.v[a] + 0.8 * (cell0.v[a] - cell0.v[a2]) + 0.04 * rng.uniform(-1, 1, cell0.gdim)
+    assert not np.isnan(v1).any()
     return v1
 
 
-def _facet_points(cell, f, Xf):
-    """Reference-facet points -> reference-cell points on local facet f."""
-    import basix
-
-    g = np.array(basix.geometry(cell.ct), dtype=float)
-    topo = basix.topology(cell.ct)[cell.tdim - 1][f]
-    p = g[list(topo)]
-    if cell.tdim == 1:
-        return np.array([p[0]])
-    return np.array([p[0] + (p[1:] - p[0]).T @ X for X in Xf])
-
-
-def _quadrature(cellname, md, polyset_elements):
+def _quadrature(cellname, md, elements):
     import basix
 
     scheme = md.get("quadrature_rule", "default")
     if scheme == "custom":
         return np.asarray(md["quadrature_points"], dtype=float), np.asarray(md["quadrature_weights"], dtype=float)
+    ct = getattr(basix.CellType, cellname)
+    if cellname == "point":
+        return np.zeros((1, 0)), np.ones(1)
+    if scheme == "vertex":
+        # the rule the 'vertex' scheme defines: the vertices of the reference cell, equal weights summing to its volume
+        g = np.array(basix.geometry(ct), dtype=float)
+        return g, np.full(len(g), R.REFVOL[cellname] / len(g))
     if scheme != "default":
         raise R.Unsupported(f"quadrature scheme {scheme}")
     degree = md.get("quadrature_degree", -1)
     if not isinstance(degree, int | np.integer) or degree < 0:
         degree = int(np.max(md["estimated_polynomial_degree"]))
-    ct = getattr(basix.CellType, cellname)
-    if cellname == "point":
-        return np.zeros((1, 0)), np.ones(1)
     ps = basix.PolysetType.standard
-    for e in polyset_elements:
-        ps = basix.polynomials.superset(ct, ps, e.polyset_type) if hasattr(e, "polyset_type") else ps
+    for e in elements:
+        ps = basix.polynomials.superset(ct, ps, e.polyset_type)
     return basix.make_quadrature(ct, degree, rule=basix.QuadratureType.default, polyset_type=ps)
 
 
-R = None
-
-
+# ------------------------------------------------------------------------------------------------ selection
 def _wanted(prop, kn):
     it = kn.integral_type
+    if prop == "C04":
+        return kn.kind == "expression"
+    if kn.kind != "integral":
+        return prop is None
     if prop == "C01":
         return it == "cell"
     if prop == "C02":
-        return it in ("exterior_facet", "interior_facet")
+        return it in ("exterior_facet", "interior_facet", "vertex")
     if prop == "C05":
         return bool(kn.fd.reduced_coefficients or kn.fd.original_form.constants())
     if prop == "C09":
         return np.issubdtype(np.dtype(kn.options["scalar_type"]), np.complexfloating)
     if prop == "C11":
-        return len(kn.itg.integrals) > 1 or any("quadrature_degree" in i.metadata() and i.metadata().get("quadrature_degree") != i.metadata().get("estimated_polynomial_degree") for i in kn.itg.integrals)
+        return len(kn.itg.integrals) > 1 or any(i.metadata().get("quadrature_rule", "default") != "default" or "quadrature_degree" in i.metadata() and i.metadata().get("quadrature_degree") != i.metadata().get("estimated_polynomial_degree") for i in kn.itg.integrals)
     return True
 
 
@@ -115,11 +127,14 @@ def _one(job):
         return dict(file=rel, opts=opts, error=f"{type(e).__name__}: {e}", tb=traceback.format_exc()[-1500:])
     fd2_cache = {}
     for kn in kernels:
-        if kn.kind != "integral" or not _wanted(prop, kn):
+        if not _wanted(prop, kn):
             continue
         name = kn.name
         try:
-            res = _kernel(kn, fd2_cache, seed, run_kernel, ufl)
+            if kn.kind == "integral":
+                res = _kernel(kn, fd2_cache, seed, run_kernel, ufl)
+            else:
+                res = _expression(kn, seed, run_kernel, ufl)
             out.append(dict(name=name, **res))
         except R.Unsupported as e:
             out.append(dict(name=name, skipped=str(e)))
@@ -128,30 +143,56 @@ def _one(job):
     return dict(file=rel, opts=opts, results=out)
 
 
-def _kernel(kn, fd2_cache, seed, run_kernel, ufl):
-    import basix.ufl
-
-    fd, itg, options = kn.fd, kn.itg, kn.options
-    it = itg.integral_type
-    if it not in ("cell", "exterior_facet", "interior_facet"):
-        raise R.Unsupported(f"integral type {it}")
-    if str(options["part"]) != "full" or options.get("sum_factorization"):
-        raise R.Unsupported("diagonal / sum-factorised kernels")
-    dom = itg.domain
+def _check_domain(dom, terminals, ufl):
     if not isinstance(dom, ufl.Mesh):
         raise R.Unsupported("mesh sequence")
     cellname = dom.ufl_cell().cellname
-    if cellname not in ("interval", "triangle", "tetrahedron"):
+    if cellname not in CELLS:
         raise R.Unsupported(f"cell {cellname}")
-    cel = dom.ufl_coordinate_element()
-    if cel.embedded_superdegree != 1 or dom.geometric_dimension != dom.ufl_cell().topological_dimension:
-        raise R.Unsupported("non-affine or manifold geometry")
-    terminals = list(fd.original_form.arguments()) + list(fd.original_form.coefficients())
-    if len(set(fd.original_form.ufl_domains())) != 1 or any(t.ufl_function_space().ufl_domain() != dom for t in terminals):
+    if dom.geometric_dimension != dom.ufl_cell().topological_dimension:
+        raise R.Unsupported("manifold geometry")
+    if any(t.ufl_function_space().ufl_domain() != dom for t in terminals):
         raise R.Unsupported("several domains")
-    cm = np.issubdtype(np.dtype(options["scalar_type"]), np.complexfloating)
-    if any(getattr(x.ufl_element(), "has_custom_quadrature", False) for x in list(fd.original_form.arguments()) + list(fd.reduced_coefficients)):
+    if any(getattr(t.ufl_element(), "has_custom_quadrature", False) for t in terminals):
         raise R.Unsupported("quadrature element")
+    return cellname
+
+
+def _draws(cm, rng, coeffs, consts, ncells, dist):
+    def rnd(n, k):  # inside (0, 1): the demos apply ln, sqrt, acos, exp, ... to (combinations of) coefficient values
+        lo, hi = (0.15, 0.85) if dist == 0 else (0.3 * (k + 1) - 0.04, 0.3 * (k + 1) + 0.04)
+        v = rng.uniform(lo, hi, n)
+        return v + 1j * rng.uniform(lo, hi, n) if cm else v
+
+    cdofs = [[rnd(c.ufl_element().dim, k) for k, c in enumerate(coeffs)] for _ in range(ncells)]
+    cvals = [rnd(int(np.prod(k.ufl_shape, dtype=int)), j) for j, k in enumerate(consts)]
+    return cdofs, cvals
+
+
+def _retry(compare):
+    for dist in (0, 1):
+        try:
+            return compare(dist)
+        except (ValueError, OverflowError, ZeroDivisionError) as e:
+            if "domain" not in str(e) and "range" not in str(e) and "division" not in str(e):
+                raise
+    raise R.Unsupported("no input draw inside the domain of the integrand's math functions")
+
+
+def _kernel(kn, fd2_cache, seed, run_kernel, ufl):
+    fd, itg, options = kn.fd, kn.itg, kn.options
+    it = itg.integral_type
+    if it not in ("cell", "exterior_facet", "interior_facet", "vertex"):
+        raise R.Unsupported(f"integral type {it}")
+    if str(options["part"]) != "full" or options.get("sum_factorization"):
+        raise R.Unsupported("diagonal / sum-factorised kernels (compared with the plain kernel by E3 metamorphic)")
+    dom = itg.domain
+    terminals = list(fd.original_form.arguments()) + list(fd.original_form.coefficients())
+    if len(set(fd.original_form.ufl_domains())) != 1:
+        raise R.Unsupported("several domains")
+    cellname = _check_domain(dom, terminals, ufl)
+    cel = dom.ufl_coordinate_element()
+    cm = np.issubdtype(np.dtype(options["scalar_type"]), np.complexfloating)
     key = id(fd)
     if key not in fd2_cache:
         fd2_cache[key] = ufl.algorithms.compute_form_data(fd.original_form, do_append_everywhere_integrals=False, complex_mode=cm)
@@ -160,21 +201,29 @@ def _kernel(kn, fd2_cache, seed, run_kernel, ufl):
     if len(match) != 1 or len(match[0].integrals) != len(itg.integrals):
         raise R.Unsupported("cannot align UFL integral data")
     integrals = match[0].integrals
-    for a, b in zip(integrals, itg.integrals):
-        ma, mb = a.metadata(), b.metadata()
-        if ma.get("estimated_polynomial_degree") != mb.get("estimated_polynomial_degree"):
-            raise R.Unsupported("integral order differs between the two UFL runs")
+    # UFL's integral scaling (applied in FFCx's run, not in fd2) raises the estimated degree by the degree of the scaling
+    # factor on non-affine cells: the same shift for every integral of the group, or the positional pairing is wrong
+    shifts = {int(np.max(b.metadata()["estimated_polynomial_degree"])) - int(np.max(a.metadata()["estimated_polynomial_degree"]))
+              for a, b in zip(integrals, itg.integrals)}
+    if len(shifts) != 1:
+        raise R.Unsupported("integral order differs between the two UFL runs")
+    shift = shifts.pop()
 
     rng = np.random.default_rng(seed)
     tdim = dom.ufl_cell().topological_dimension
     nfac = C.cell_entities(cellname, tdim - 1)
-    comparisons = []
-    configs = []
+    if cellname == "prism" and it in ("exterior_facet", "interior_facet"):
+        raise R.Unsupported("facets of a prism (two facet types)")
+    degree1 = (cel._sub_element if hasattr(cel, "_sub_element") else cel).embedded_superdegree == 1
     if it == "cell":
         configs = [(None, None, False), (None, None, True)]
     elif it == "exterior_facet":
         configs = [(f, None, f % 2 == 1) for f in range(nfac)]
+    elif it == "vertex":
+        configs = [(v, None, v % 2 == 1) for v in range(C.cell_entities(cellname, 0))]
     else:
+        if not degree1:
+            raise R.Unsupported("interior facets of higher-order geometry")
         configs = [(f0, f1, (f0 + f1) % 2 == 1) for f0 in range(nfac) for f1 in range(nfac)]
         if len(configs) > 6:
             idx = rng.choice(len(configs), 6, replace=False)
@@ -186,88 +235,151 @@ def _kernel(kn, fd2_cache, seed, run_kernel, ufl):
     consts = list(fd.original_form.constants())
     width = 2 if it == "interior_facet" else 1
     ext = kn.ext
+    comparisons = []
     for f0, f1, flip in configs:
-        cell0 = R.Cell(cellname, _ref_cell(cellname, rng, flip))
+        cell0 = R.Cell(cel, _nodes(cel, rng, flip))
         cells = [cell0]
         if it == "interior_facet":
-            cells.append(R.Cell(cellname, _neighbour(cell0, f0, f1, rng)))
-        # inputs
-        def rnd(n):  # inside (0, 1): the demos apply ln, sqrt, acos, exp, ... to coefficient values
-            v = rng.uniform(0.15, 0.85, n)
-            return v + 1j * rng.uniform(0.15, 0.85, n) if cm else v
+            cells.append(R.Cell(cel, _neighbour(cell0, f0, f1, rng)))
 
-        cdofs = [[rnd(c.ufl_element().dim) for c in coeffs] for _ in cells]
-        cvals = [rnd(int(np.prod(k.ufl_shape, dtype=int))) for k in consts]
-        adofs = [[rng.uniform(-1, 1, a.ufl_element().dim) for a in args] for _ in cells]
-        # reference
-        sides = {}
-        for s, (cl, tag) in enumerate(zip(cells, ["+", "-"])):
-            fn = {}
-            for c, d in zip(coeffs, cdofs[s]):
-                fn[c] = R.FEFunction(c.ufl_element(), cl, d)
-            for a, d in zip(args, adofs[s]):
-                fn[a] = R.FEFunction(a.ufl_element(), cl, d)
-            side = R.Side(cl, (f0, f1)[s], fn, normal_sign=1.0 if s == 0 else -1.0)
-            if it == "interior_facet":
-                sides[tag] = side
-            else:
-                sides[None] = side
-        constants = {}
-        for k, v in zip(consts, cvals):
-            constants[k] = v[0] if k.ufl_shape == () else R._nest(v, k.ufl_shape)
-        evaluator = R.Evaluator(sides, constants, cm)
-        ref = 0.0
-        mag = 0.0
-        for integral in integrals:
-            md = integral.metadata()
-            els = [x.ufl_element() for x in list(args) + coeffs]
-            if it == "cell":
-                X, W = _quadrature(cellname, md, els)
-                scale = abs(cell0.detJ)
-                pts = X
-            else:
-                fname = {1: "point", 2: "interval", 3: "triangle"}[tdim]
-                Xf, W = _quadrature(fname, md, els)
-                pts = _facet_points(cell0, f0, Xf)
-                refvol = {1: 1.0, 2: 1.0, 3: 0.5}[tdim]
-                scale = cell0.facet_measure(f0) / refvol
-            for Xq, wq in zip(pts, W):
-                x = tuple(cell0.push(Xq))
-                val = evaluator(integral.integrand(), x)
-                cost = len(evaluator.memo) * len(W) * len(configs)
-                if cost > MAX_COST:
-                    raise R.Unsupported(f"reference evaluation too expensive ({len(evaluator.memo)} scalar sub-expressions x {len(W)} points x {len(configs)} cells)")
-                ref = ref + scale * wq * val
-                mag += abs(scale * wq * val)
-        # kernel
-        dt = complex if cm else float
-        A = np.zeros(ext.ext["A"], dtype=dt)
-        w = np.zeros(max(ext.ext["w"], 1), dtype=dt)
-        for ci, (lo, hi) in enumerate(ext.all_coeff_ranges):
-            n = (hi - lo) // width
-            for s in range(width):
-                w[lo + s * n : lo + (s + 1) * n] = cdofs[s][ci]
-        cc = np.concatenate(cvals).astype(dt) if cvals else np.zeros(1, dtype=dt)
-        nodes = cel.dim // dom.geometric_dimension
-        xdofs = np.zeros((width * nodes, 3))
-        for s, cl in enumerate(cells):
-            xdofs[s * nodes : (s + 1) * nodes, : cl.gdim] = cl.v
-        eli = [f for f in (f0, f1) if f is not None] or [0]
-        try:
-            run_kernel(kn.program, A, w, cc, xdofs.reshape(-1), eli, [0, 0], cm)
-        except NotImplementedError as e:
-            raise R.Unsupported(f"kernel interpreter: {e}") from None
-        dims = [width * a.ufl_element().dim for a in args]
-        At = A.reshape(dims) if dims else A.reshape(())
-        got = At
-        for a_i in range(len(args)):
-            vec = np.concatenate([adofs[s][a_i] for s in range(width)])
-            got = np.tensordot(vec, got, axes=(0, 0))
-        got = complex(got) if cm else float(got)
-        err = abs(got - ref)
-        tol = RTOL * max(mag, abs(ref), 1e-30) + 1e-13
-        comparisons.append(dict(config=[f0, f1, bool(flip)], kernel=repr(got), reference=repr(ref), ok=bool(err <= tol), err=float(err), tol=float(tol),
-                                vertices=[c.v.tolist() for c in cells]))
+        def compare(dist):
+            cdofs, cvals = _draws(cm, rng, coeffs, consts, len(cells), dist)
+            adofs = [[rng.uniform(-1, 1, a.ufl_element().dim) for a in args] for _ in cells]
+            # reference
+            sides = {}
+            for s, (cl, tag) in enumerate(zip(cells, ["+", "-"])):
+                fn = {}
+                for c, d in zip(coeffs, cdofs[s]):
+                    fn[c] = R.FEFunction(c.ufl_element(), cl, d)
+                for a, d in zip(args, adofs[s]):
+                    fn[a] = R.FEFunction(a.ufl_element(), cl, d)
+                sides[tag if it == "interior_facet" else None] = R.Side(cl, (f0, f1)[s] if it != "vertex" else None, fn)
+            constants = {k: (v[0] if k.ufl_shape == () else R._nest(v, k.ufl_shape)) for k, v in zip(consts, cvals)}
+            evaluator = R.Evaluator(sides, constants, cm)
+            ref = 0.0
+            mag = 0.0
+            for integral in integrals:
+                md = dict(integral.metadata())
+                md["estimated_polynomial_degree"] = int(np.max(md["estimated_polynomial_degree"])) + shift
+                els = [x.ufl_element() for x in list(args) + coeffs]
+                if it == "cell":
+                    pts, W = _quadrature(cellname, md, els)
+                    per_side = [pts]
+                    scale = [abs(cell0.geom(X)[2]) for X in pts]
+                elif it == "vertex":
+                    pts, W = np.array([cell0.refgeom[f0]]), np.ones(1)
+                    per_side = [pts]
+                    scale = [1.0]
+                else:
+                    fname = {1: "point", 2: "interval", 3: "triangle" if cell0.simplex else "quadrilateral"}[tdim]
+                    Xf, W = _quadrature(fname, md, els)
+                    per_side = [cl.facet_points(f, Xf) for cl, f in zip(cells, (f0, f1))]
+                    scale = [cell0.facet_scale(f0, X) for X in per_side[0]]
+                for q, wq in enumerate(W):
+                    X = {k: per_side[i][q] for i, k in enumerate(sides)}
+                    if it == "interior_facet" and np.abs(cells[0].push(per_side[0][q]) - cells[1].push(per_side[1][q])).max() > 1e-10:
+                        raise RuntimeError("harness: the two sides' quadrature points do not coincide")
+                    val = evaluator(integral.integrand(), X)
+                    cost = len(evaluator.memo) * len(W) * len(configs)
+                    if cost > MAX_COST:
+                        raise R.Unsupported(f"reference evaluation too expensive ({len(evaluator.memo)} scalar sub-expressions x {len(W)} points x {len(configs)} cells)")
+                    ref = ref + scale[q] * wq * val
+                    mag += abs(scale[q] * wq * val)
+            # kernel
+            dt = complex if cm else float
+            A = np.zeros(ext.ext["A"], dtype=dt)
+            w = np.zeros(max(ext.ext["w"], 1), dtype=dt)
+            for ci, (lo, hi) in enumerate(ext.all_coeff_ranges):
+                n = (hi - lo) // width
+                for s in range(width):
+                    w[lo + s * n : lo + (s + 1) * n] = cdofs[s][ci]
+            cc = np.concatenate(cvals).astype(dt) if cvals else np.zeros(1, dtype=dt)
+            nodes = cell0.v.shape[0]
+            xdofs = np.zeros((width * nodes, 3))
+            for s, cl in enumerate(cells):
+                xdofs[s * nodes : (s + 1) * nodes, : cl.gdim] = cl.v
+            eli = [f for f in (f0, f1) if f is not None] or [0]
+            try:
+                run_kernel(kn.program, A, w, cc, xdofs.reshape(-1), eli, [0, 0], cm)
+            except NotImplementedError as e:
+                raise R.Unsupported(f"kernel interpreter: {e}") from None
+            dims = [width * a.ufl_element().dim for a in args]
+            got = A.reshape(dims) if dims else A.reshape(())
+            for a_i in range(len(args)):
+                vec = np.concatenate([adofs[s][a_i] for s in range(width)])
+                got = np.tensordot(vec, got, axes=(0, 0))
+            got = complex(got) if cm else float(got)
+            err = abs(got - ref)
+            tol = RTOL * max(mag, abs(ref), 1e-30) + 1e-13
+            comparisons.append(dict(config=[f0, f1, bool(flip)], kernel=repr(got), reference=repr(ref), ok=bool(err <= tol), err=float(err), tol=float(tol),
+                                    nodes=[c.v.tolist() for c in cells]))
+
+        _retry(compare)
+    return dict(comparisons=comparisons)
+
+
+def _expression(kn, seed, run_kernel, ufl):
+    """A[point][component][argument dofs] (contracted with random argument dof vectors) == the expression at the point."""
+    import ufl.algorithms.analysis as ua
+    from ufl.algorithms.apply_algebra_lowering import apply_algebra_lowering
+
+    original, points, options = kn.original, np.asarray(kn.points, dtype=float), kn.options
+    cm = np.issubdtype(np.dtype(options["scalar_type"]), np.complexfloating)
+    expr = apply_algebra_lowering(ufl.algorithms.expand_derivatives(original))
+    dom = ufl.domain.extract_unique_domain(original)
+    args = sorted(ua.extract_arguments(original), key=lambda a: a.number())
+    coeffs = sorted(ua.extract_coefficients(original), key=lambda c: c.count())
+    consts = sorted(ua.extract_constants(original), key=lambda c: c.count())
+    cellname = _check_domain(dom, list(args) + list(coeffs), ufl)
+    if ua.extract_type(expr, ufl.classes.Restricted):
+        raise R.Unsupported("restricted expression")
+    cel = dom.ufl_coordinate_element()
+    tdim = dom.ufl_cell().topological_dimension
+    ext = kn.ext
+    w_total = sum(c.ufl_element().dim for c in coeffs)
+    if ext.ext["w"] != w_total:
+        raise R.Unsupported("coefficients dropped by preprocessing (packing not reconstructible here)")
+    rng = np.random.default_rng(seed)
+    on_facet = points.shape[1] < tdim
+    if on_facet and points.shape[1] != tdim - 1:
+        raise R.Unsupported("points on sub-entities of codimension > 1")
+    nent = C.cell_entities(cellname, tdim - 1) if on_facet else 1
+    shape = original.ufl_shape
+    comps = list(np.ndindex(*shape)) if shape else [()]
+    comparisons = []
+    # facet points on an interval facet: permutation code 1 = the reflected facet (X -> 1 - X); other facet types: code 0 only
+    cases = [(ent, code) for ent in range(nent) for code in ((0, 1) if on_facet and tdim == 2 else (0,))]
+    for ent, code in cases:
+        cell = R.Cell(cel, _nodes(cel, rng, ent % 2 == 1))
+
+        def compare(dist):
+            cdofs, cvals = _draws(cm, rng, coeffs, consts, 1, dist)
+            adofs = [rng.uniform(-1, 1, a.ufl_element().dim) for a in args]
+            fn = {c: R.FEFunction(c.ufl_element(), cell, d) for c, d in zip(coeffs, cdofs[0])}
+            fn.update({a: R.FEFunction(a.ufl_element(), cell, d) for a, d in zip(args, adofs)})
+            constants = {k: (v[0] if k.ufl_shape == () else R._nest(v, k.ufl_shape)) for k, v in zip(consts, cvals)}
+            evaluator = R.Evaluator({None: R.Side(cell, ent if on_facet else None, fn)}, constants, cm)
+            Xs = cell.facet_points(ent, points if code == 0 else 1.0 - points) if on_facet else points
+            ref = np.array([[evaluator(expr, {None: X}, comp) for comp in comps] for X in Xs])
+            dt = complex if cm else float
+            A = np.zeros(ext.ext["A"], dtype=dt)
+            w = np.concatenate(cdofs[0]).astype(dt) if coeffs else np.zeros(1, dtype=dt)
+            cc = np.concatenate(cvals).astype(dt) if cvals else np.zeros(1, dtype=dt)
+            xdofs = np.zeros((cell.v.shape[0], 3))
+            xdofs[:, : cell.gdim] = cell.v
+            try:
+                run_kernel(kn.program, A, w, cc, xdofs.reshape(-1), [ent, ent], [code, code], cm)
+            except NotImplementedError as e:
+                raise R.Unsupported(f"kernel interpreter: {e}") from None
+            got = A.reshape([len(Xs), len(comps)] + [a.ufl_element().dim for a in args])
+            for vec in adofs:
+                got = np.tensordot(got, vec, axes=(2, 0))
+            err = float(np.abs(got - ref).max())
+            tol = RTOL * max(float(np.abs(ref).max()), 1e-30) + 1e-12
+            comparisons.append(dict(config=[ent, code, ent % 2 == 1], kernel=repr(got.ravel()[:4].tolist()), reference=repr(ref.ravel()[:4].tolist()), ok=bool(err <= tol),
+                                    err=err, tol=float(tol), nodes=[cell.v.tolist()]))
+
+        _retry(compare)
     return dict(comparisons=comparisons)
 
 
@@ -286,16 +398,15 @@ def run_all(tier, seed, prop=None):
 
 
 def run_e3num(rep, tier, seed, min_kernels=3):
-    n = nskip = 0
+    n = 0
     skipped = {}
     for f in run_all(tier, seed, rep.prop):
         if "error" in f:
             rep.error(f"E3 numeric {f['file']}", f["error"] + "\n" + f.get("tb", ""))
             continue
         for r in f["results"]:
-            name = f"kernel {r['name']}{f['opts'] or ''}: contraction of the tabulated tensor with random dof vectors equals the reference integral"
+            name = f"kernel {r['name']}{f['opts'] or ''}: contraction of the tabulated tensor with random dof vectors equals the reference value"
             if "skipped" in r:
-                nskip += 1
                 skipped[r["skipped"]] = skipped.get(r["skipped"], 0) + 1
                 continue
             if "crashed" in r:
@@ -307,7 +418,7 @@ def run_e3num(rep, tier, seed, min_kernels=3):
                 rep.ob(name, "proved", "runtime-contract", "bounded")
             else:
                 rep.violation(f"numeric:{r['name']}", name + f" fails: {bad[0]}", dict(obligation=name, failing=bad[:3], corpus_file=f["file"], options=f["opts"],
-                                                                                       how="python -m checks.e3num <corpus file>"))
+                                                                                       how="python -m checks.e3num <corpus file> [options]"))
     rep.extra["numeric_kernels_compared"] = n
     rep.extra["numeric_kernels_outside_reference_fragment"] = skipped
     if n < min_kernels:
@@ -320,4 +431,4 @@ if __name__ == "__main__":
 
     rel = sys.argv[1]
     opts = eval(sys.argv[2]) if len(sys.argv) > 2 else {}  # noqa: S307
-    print(json.dumps(_one((rel, opts, 12345, None)), indent=1, default=str))
+    print(json.dumps(_one((rel, opts, 12345, sys.argv[3] if len(sys.argv) > 3 else None)), indent=1, default=str))
